@@ -3,7 +3,7 @@ CONSTANTS
   MinC = 0
   MaxC = 3
   Ks = {3}
-  Hook = {"none","ok","fail"}
+  Hook = {"none","ok","fail","okok","okfail","failok"}
   Conds = {"none","true","false"}
   MaxFail = 9
 SPECIFICATION Spec
